@@ -6,6 +6,7 @@ import (
 	"encoding/hex"
 	"encoding/json"
 	"fmt"
+	"math/big"
 	"strings"
 
 	govact "github.com/Oneledger/protocol/action/governance"
@@ -165,6 +166,10 @@ func (g *Governance) newBatch(c *Ctx) []hist.TxSpec {
 		if pl == "config" {
 			p.typ = governance.ProposalTypeConfigUpdate
 			vals := []string{"onsOptions.perBlockFees:200000000000000", "onsOptions.baseDomainPrice:900000000000000000000", "feeOption.minFeeDecimal:10", "onsOptions.perBlockFees:100000000000000"}
+			if len(c.W.P.PerBlockFees) > 18 {
+				// (a world whose per-block price does not fit 64 bits keeps prices of that size)
+				vals = []string{"onsOptions.perBlockFees:20000000000000000000", "onsOptions.baseDomainPrice:900000000000000000000", "feeOption.minFeeDecimal:10", "onsOptions.perBlockFees:10000000000000000000"}
+			}
 			if c.W.P.ProdGov {
 				// (the option validation looks at the whole option set: these keys can only be changed where the
 				// deadlines are inside its ranges)
@@ -419,3 +424,29 @@ func (g *Governance) lateVoter(c *Ctx, p *prop) []hist.TxSpec {
 func (g *Governance) Observe(c *Ctx, blk *hist.Block) {}
 
 var _ = strings.Split
+
+// ConfigProposalBlocks builds, for a chain at height h, the blocks that carry a configuration proposal with
+// the given update through its life: creation, funding to the goal, yes votes of every genesis validator, and
+// three empty blocks for the finalisation. Used as prelude of probes: if the option validation refuses the
+// proposal at creation, the later transactions simply fail.
+func ConfigProposalBlocks(w *world.World, s hist.State, h int64, tag, update string) [][][]byte {
+	us := w.Users
+	id := PropID("cfgprobe/" + tag + "/" + update + fmt.Sprint(h))
+	goal, _ := balance.NewAmountFromString(w.P.PropFundingGoal, 10)
+	optVoting, pass := w.P.VotingDeadline, 51
+	if o := propOptionOf(s, governance.ProposalTypeConfigUpdate); o != nil {
+		optVoting, pass = o.VotingDeadline, o.PassPercentage
+	}
+	fundDl := h + 1 + 5
+	proposer := us[3%len(us)]
+	create := txb.Tx(&govact.CreateProposal{ProposalID: governance.ProposalID(id), ProposalType: governance.ProposalTypeConfigUpdate, Headline: "h " + tag, Description: "d " + update, Proposer: proposer.Addr,
+		InitialFunding: txb.Amt("OLT", w.P.PropInitialFund), FundingDeadline: fundDl, FundingGoal: goal, VotingDeadline: fundDl + optVoting, PassPercentage: pass, ConfigUpdate: update}, txb.DefaultFee(), "cfgprobe-create-"+tag+fmt.Sprint(h), proposer)
+	fund := txb.Tx(&govact.FundProposal{ProposalId: governance.ProposalID(id), FunderAddress: us[4%len(us)].Addr, FundValue: txb.Amt("OLT", new(big.Int).Sub(world.BigFromString(w.P.PropFundingGoal), world.BigFromString(w.P.PropInitialFund)).String())}, txb.DefaultFee(), "cfgprobe-fund-"+tag+fmt.Sprint(h), us[4%len(us)])
+	var votes [][]byte
+	for _, v := range w.Vals {
+		if v.InGenesis {
+			votes = append(votes, txb.Tx(&govact.VoteProposal{ProposalID: governance.ProposalID(id), Address: v.Stake.Addr, ValidatorAddress: v.ValAddr, Opinion: governance.OPIN_POSITIVE}, txb.DefaultFee(), "cfgprobe-vote-"+tag+v.Name+fmt.Sprint(h), &v.Stake, ConsAccount(v)))
+		}
+	}
+	return [][][]byte{{create}, {fund}, votes, {}, {}, {}}
+}
